@@ -96,7 +96,7 @@ func buildTagFields(rt reflect.Type, nested, omitEmpty bool) (fa []*finfo) {
 	for i := rt.NumField() - 1; 0 <= i; i-- {
 		f := rt.Field(i)
 		name := []byte(f.Name)
-		if len(name) == 0 || !f.IsExported() {
+		if len(name) == 0 || (!f.IsExported() && !(embeddedStruct(&f) && nested)) {
 			continue
 		}
 		var fx byte
@@ -149,7 +149,7 @@ func buildExactFields(rt reflect.Type, nested, omitEmpty bool) (fa []*finfo) {
 	for i := rt.NumField() - 1; 0 <= i; i-- {
 		f := rt.Field(i)
 		name := []byte(f.Name)
-		if len(name) == 0 || !f.IsExported() {
+		if len(name) == 0 || (!f.IsExported() && !(embeddedStruct(&f) && nested)) {
 			continue
 		}
 		switch {
@@ -180,7 +180,7 @@ func buildLowFields(rt reflect.Type, nested, omitEmpty bool) (fa []*finfo) {
 	for i := rt.NumField() - 1; 0 <= i; i-- {
 		f := rt.Field(i)
 		name := []byte(f.Name)
-		if len(name) == 0 || !f.IsExported() {
+		if len(name) == 0 || (!f.IsExported() && !(embeddedStruct(&f) && nested)) {
 			continue
 		}
 		if embeddedStruct(&f) && nested {
